@@ -99,23 +99,22 @@ Definition alh (h : txhdr) : bytes :=
   H (be_enc w_txid (h_id h) ++ h_prevalh h ++ H (inner_bytes h)).
 
 (* ---- the store ---- *)
-(* s_tail is the physical content of the tx log after the last committed record, in file order;
-   the flag tells whether the record is a live precommitted transaction (true) or was discarded by
-   DiscardPrecommittedTxsSince (false: still in the file, re-read by the next Open). *)
+(* s_tail: the precommitted transactions = the records of the tx log between the committed offset
+   and its logical end, in file order (DiscardPrecommittedTxsSince cuts the log at the end of the
+   last record it keeps). *)
 (* s_ghost: records still in the file behind the logical end of the tx log (left there by a reopening
    that did not take them back, or by a precommit that failed after its append); the next
    performPrecommit rewinds the log to its logical end (txLog.SetOffset, which drops what follows)
    before it appends. *)
 (* s_cap: size of the precommit buffer (MaxActiveTransactions at Open; the recovery loop doubles it
    while more precommitted transactions are reloaded than fit). *)
-Record store := { s_com : list txrec; s_tail : list (txrec * bool); s_allowed : N;
+Record store := { s_com : list txrec; s_tail : list txrec; s_allowed : N;
                   s_ghost : list txrec; s_cap : N }.
 
 Definition store_open (c : cfg) : store :=
   {| s_com := []; s_tail := []; s_allowed := 0; s_ghost := []; s_cap := c_maxActive c |}.
 
-Definition live (t : list (txrec * bool)) : list txrec := map fst (filter snd t).
-Definition chain (st : store) : list txrec := s_com st ++ live (s_tail st).
+Definition chain (st : store) : list txrec := s_com st ++ s_tail st.
 (* Alh of the last transaction; sha256.Sum256(nil) for an empty store *)
 Definition last_alh (l : list txrec) : bytes :=
   match rev l with [] => H [] | r :: _ => t_alh r end.
@@ -128,25 +127,15 @@ Definition alhs (st : store) : list bytes := map t_alh (chain st).
 (* AHtree.RootAt(n), 1 <= n <= size, over the Alh values of all (pre)committed transactions *)
 Definition root_at (n : N) (l : list bytes) : bytes := mth H (takeN n l).
 
-(* the first n live records of the tail move to the committed list; everything physically
-   before the last of them is left behind the new committed offset *)
-Fixpoint take_live (n : nat) (t : list (txrec * bool)) {struct t} : list txrec * list (txrec * bool) :=
-  match n, t with
-  | O, _ => ([], t)
-  | _, [] => ([], [])
-  | S n', (r, true) :: t' => let '(a, b) := take_live n' t' in (r :: a, b)
-  | S _, (_, false) :: t' => take_live n t'
-  end.
-
 (* mayCommit (unsynced store: called inline by performPrecommit and AllowCommitUpto) *)
 Definition may_commit (c : cfg) (st : store) : store :=
   let target := if c_ext c then s_allowed st else pre_id st in
   let n := target - com_id st in
   if n =? 0 then st else
-  let '(a, b) := take_live (N.to_nat n) (s_tail st) in
   (* cLogBuf.readAhead fails when fewer than n transactions are precommitted: error, no change *)
-  if lenN a <? n then st else
-  {| s_com := s_com st ++ a; s_tail := b; s_allowed := s_allowed st;
+  if lenN (s_tail st) <? n then st else
+  {| s_com := s_com st ++ firstn (N.to_nat n) (s_tail st); s_tail := skipn (N.to_nat n) (s_tail st);
+     s_allowed := s_allowed st;
      s_ghost := s_ghost st; s_cap := s_cap st |}.
 
 (* digest(): copy into a [32]byte *)
@@ -199,9 +188,9 @@ Definition new_rec (st : store) (k : checked) : txrec :=
 
 (* performPrecommit; cLogBuf.put fails when the precommit buffer is full *)
 Definition perform (c : cfg) (st : store) (k : checked) : res store :=
-  if s_cap st <=? lenN (live (s_tail st)) then Err EBufferFull else
+  if s_cap st <=? lenN (s_tail st) then Err EBufferFull else
   let st' := {| s_com := s_com st;
-                s_tail := s_tail st ++ [(new_rec st k, true)];
+                s_tail := s_tail st ++ [new_rec st k];
                 s_allowed := s_allowed st; s_ghost := []; s_cap := s_cap st |} in
   Ok (may_commit c st').
 
@@ -236,24 +225,16 @@ Definition allow_commit (c : cfg) (st : store) (t : N) : res store :=
   Ok (may_commit c {| s_com := s_com st; s_tail := s_tail st; s_allowed := a;
                       s_ghost := s_ghost st; s_cap := s_cap st |}).
 
-(* marks the last n live records of the tail as discarded *)
-Definition kill_last (n : nat) (t : list (txrec * bool)) : list (txrec * bool) :=
-  let keep := (length (filter snd t) - n)%nat in
-  (fix go (k : nat) (t : list (txrec * bool)) : list (txrec * bool) :=
-     match t with
-     | [] => []
-     | (r, true) :: t' => match k with O => (r, false) :: go O t' | S k' => (r, true) :: go k' t' end
-     | (r, false) :: t' => (r, false) :: go k t'
-     end) keep t.
-
-(* ImmuStore.DiscardPrecommittedTxsSince: number of discarded transactions *)
+(* ImmuStore.DiscardPrecommittedTxsSince: number of discarded transactions.  The tx log is cut at
+   the end of the last transaction that is kept (txLog.SetOffset): the discarded records and whatever
+   was behind the logical end are gone. *)
 Definition discard (st : store) (t : N) : res (store * N) :=
   if t =? 0 then Err EIllegalArguments else
   if t <=? com_id st then Err EIllegalArguments else
   if pre_id st <? t then Ok (st, 0) else
   let n := pre_id st + 1 - t in
-  Ok ({| s_com := s_com st; s_tail := kill_last (N.to_nat n) (s_tail st); s_allowed := s_allowed st;
-         s_ghost := s_ghost st; s_cap := s_cap st |}, n).
+  Ok ({| s_com := s_com st; s_tail := firstn (length (s_tail st) - N.to_nat n) (s_tail st);
+         s_allowed := s_allowed st; s_ghost := []; s_cap := s_cap st |}, n).
 
 (* Close + Open: the tx log is re-read from the committed offset; records are taken back as
    precommitted while they chain (ID = previous+1, PrevAlh = previous Alh), the rest is dropped
@@ -269,7 +250,7 @@ Fixpoint reload (cur : N) (curalh : bytes) (l : list txrec) : list txrec :=
   end.
 
 (* everything physically in the tx log behind the committed offset, in file order *)
-Definition physical (st : store) : list txrec := map fst (s_tail st) ++ s_ghost st.
+Definition physical (st : store) : list txrec := s_tail st ++ s_ghost st.
 
 (* cLogBuf.grow(2*len) each time a reloaded transaction does not fit *)
 Fixpoint grow_cap (fuel : nat) (m n : N) : N :=
@@ -280,7 +261,7 @@ Fixpoint grow_cap (fuel : nat) (m n : N) : N :=
 
 Definition restart (c : cfg) (st : store) : store :=
   let back := reload (com_id st) (com_alh st) (physical st) in
-  may_commit c {| s_com := s_com st; s_tail := map (fun r => (r, true)) back; s_allowed := com_id st;
+  may_commit c {| s_com := s_com st; s_tail := back; s_allowed := com_id st;
                   s_ghost := skipn (length back) (physical st);
                   s_cap := grow_cap (S (length back)) (c_maxActive c) (lenN back) |}.
 
